@@ -27,6 +27,7 @@ class Ctx:
         self.is_closure = b.kind == "Closure"
         self._stores = None
         self.loopvars = set()
+        self.callee_facts = []
 
     # ---- field values at a site
     def stores(self):
@@ -251,7 +252,7 @@ class Ctx:
         old = lambda f: {("L0" if k == "L" else k): v for k, v in f.items()}
         at_call = [old(f) for f in self.path_facts(g)]
         inv = [f for f in global_facts(self)]
-        grown = inv + [old(f) for f in self.path_facts(at) if "L" not in f] + at_call + [LA.add({"L": 1}, old(req), -1)] + [old(f) for f in self.extra_facts]
+        grown = inv + [old(f) for f in self.path_facts(at) if "L" not in f] + at_call + [LA.add({"L": 1}, old(req), -1)] + [old(f) for f in self.extra_facts] + [old(f) for f in getattr(self, "callee_facts", [])]
         return [base + skip + self.extra_facts, grown]
 
     def callee_request(self, g):
@@ -266,19 +267,25 @@ class Ctx:
         if req is None:
             return None
         args = b.arg_exprs(g)
-        out = {}
-        for k, v in req.items():
-            if isinstance(k, str) and k.startswith("p_"):
-                nm = k[2:]
-                idx = [i for i in range(1, rb.arg_count + 1) if rb.arg_name(i) == nm]
-                if not idx or idx[0] - 1 >= len(args):
-                    return None
-                a = self.lin(args[idx[0] - 1], g)
-                if a is None:
-                    return None
-                out = LA.add(out, LA.scale(a, v))
-            else:
-                out = LA.add(out, {k: v})
+
+        def subst(form):
+            out = {}
+            for k, v in form.items():
+                if isinstance(k, str) and k.startswith("p_"):
+                    nm = k[2:]
+                    idx = [i for i in range(1, rb.arg_count + 1) if rb.arg_name(i) == nm]
+                    if not idx or idx[0] - 1 >= len(args):
+                        return None
+                    a = self.lin(args[idx[0] - 1], g)
+                    if a is None:
+                        return None
+                    out = LA.add(out, LA.scale(a, v))
+                else:
+                    out = LA.add(out, {k: v})
+            return out
+        out = subst(req)
+        # what the callee knows about the symbols of its request (a `max(..)`, a rounding), in the caller's terms
+        self.callee_facts = [f2 for f2 in (subst(f) for f in sub.extra_facts) if f2 is not None]
         return out
 
     def cond_facts(self, e, truth, at):
